@@ -223,9 +223,9 @@ def replay(case, ctx):
 
 
 def plan(tier, seed):
-    n, per = (12, 330) if tier == "quick" else (15, 25000)
+    n, per = (12, 2000) if tier == "quick" else (15, 25000)
     sh = [{"kind": "mem", "kinds": [["tag"], ["tag", "tag2"]][k % 2], "n": per} for k in range(n)]
-    nc, perc = (4, 12) if tier == "quick" else (16, 100)
+    nc, perc = (4, 60) if tier == "quick" else (16, 100)
     return sh + [{"kind": "cli", "n": perc} for _ in range(nc)]
 
 
